@@ -236,11 +236,26 @@ def run_driver_parallel(pid, requests, jobs=8, timeout=1500):
 # ------------------------------------------------------------ known findings
 
 def load_known():
+    """known_findings.json (the committed file) plus any not-yet-merged known_findings.d/*.json
+    (tools/mkknown.py merges them; reading both keeps a work-in-progress tree self-contained)"""
     try:
         with open(KNOWN_FINDINGS, encoding='utf-8') as f:
-            return json.load(f)
+            k = json.load(f)
     except FileNotFoundError:
-        return {'findings': [], 'fixed': []}
+        k = {'findings': [], 'fixed': []}
+    have = {f['id'] for f in k.get('findings', [])}
+    import glob
+    for p in sorted(glob.glob(os.path.join(VERIF, 'known_findings.d', '*.json'))):
+        try:
+            with open(p, encoding='utf-8') as f:
+                d = json.load(f)
+        except (OSError, ValueError):
+            continue
+        for f_ in d.get('findings', []):
+            if f_['id'] not in have:
+                k.setdefault('findings', []).append(f_)
+                have.add(f_['id'])
+    return k
 
 
 # ------------------------------------------------------------------ context
